@@ -17,7 +17,13 @@ CONSTANTS Fam,        \* name of the grammar family
 (* inputs *)
 RECURSIVE Strs(_)
 Strs(n) == IF n = 0 THEN {<<>>} ELSE LET S == Strs(n - 1) IN S \cup {Append(s, t) : s \in {x \in S : Len(x) = n - 1}, t \in Alphabet}
-Inputs == Strs(MaxLen)
+(* token trees: only balanced bracket sequences are inputs *)
+RECURSIVE BalFrom(_, _)
+BalFrom(s, d) == IF s = <<>> THEN d = 0
+                 ELSE IF Head(s) = "(" THEN BalFrom(Tail(s), d + 1)
+                 ELSE IF Head(s) = ")" THEN d > 0 /\ BalFrom(Tail(s), d - 1)
+                 ELSE BalFrom(Tail(s), d)
+Inputs == IF Kinds \cap {"tree", "treem"} # {} THEN {s \in Strs(MaxLen) : BalFrom(s, 0)} ELSE Strs(MaxLen)
 
 (* "E" stands for a two-byte character (the harness maps it to U+00E9),   *)
 (* "W" for a four-byte one                                                *)
@@ -43,6 +49,10 @@ Strats == {<<"via", J("a")>>, <<"via", <<"any">>>>, <<"via", <<"to", J("b"), "k"
            <<"skipuntil", <<"any">>, J("b")>>, <<"skipuntil", <<"any">>, <<"end">>>>, <<"skipuntil", J("a"), J("b")>>,
            <<"retry", <<"any">>, J("b")>>, <<"retry", <<"any">>, <<"end">>>>, <<"retry", J("a"), <<"end">>>>}
 
+(* C16: parsers that yield an inner input (the `b` of a.nested_in(b)) *)
+TreeLeaf == <<"tree">>
+NestB == {TreeLeaf, <<"ithen", J("a"), TreeLeaf>>, <<"theni", TreeLeaf, J("b")>>,
+          <<"or", <<"ithen", J("a"), TreeLeaf>>, TreeLeaf>>}
 (* the unary / binary layer of each family *)
 UnLayer(fam, S) ==
   CASE fam = "peg" ->
@@ -82,6 +92,9 @@ UnLayer(fam, S) ==
          Un(S, IF fam = "spn" THEN {"tospan", "toslice", "mw", "ornot", "rewind"} ELSE {"tospan", "mw", "ornot", "rewind"})
          \cup {<<"collect", r, "vec">> : r \in Reps(S, {<<0, Inf>>})}
          \cup {<<"validate", a, "1", "F">> : a \in S} \cup UnP(S, "trymap", {"F"})
+    [] fam = "nst" ->
+         Un(S, {"ornot"}) \cup {<<"nested", a, b>> : a \in S, b \in NestB}
+         \cup {<<"collect", r, "vec">> : r \in Reps(S, {<<0, Inf>>})}
     [] fam = "rep" ->
          {<<"collect", r, k>> : r \in Reps(S, Bounds), k \in {"vec"}}
          \cup {<<"run", r>> : r \in Reps(S, Bounds)}
@@ -100,6 +113,7 @@ BinLayer(fam, S1, S2) ==
     [] fam = "lbl" -> Bin(S1, S2, {"then", "or"}) \cup {<<"choicev", <<a, b>>>> : a \in S1, b \in S2}
     [] fam = "memo" -> Bin(S1, S2, {"then", "or", "andis"})
     [] fam = "ctx" -> Bin(S1, S2, {"then", "or", "thenctx", "ignctx"})
+    [] fam = "nst" -> Bin(S1, S2, {"then", "or"})
     [] fam = "rep" -> Bin(S1, S2, {"then", "or"})
                       \cup {<<"collect", <<"sep", a, b, lh[1], lh[2], l, t>>, "vec">> :
                               a \in {x \in S1 : ~CanEmpty(x)}, b \in S2, lh \in {<<0, Inf>>, <<1, 2>>, <<2, Inf>>, <<0, 0>>},
@@ -116,6 +130,7 @@ LeavesOf(fam) ==
     [] fam = "rcv" -> {J("a"), J("b"), JJ("a", "b"), <<"any">>}
     [] fam = "lbl" -> {J("a"), J("b"), JJ("a", "b"), <<"any">>, <<"end">>, <<"cust", 1, FALSE>>}
     [] fam = "memo" -> {J("a"), J("b"), JJ("a", "b"), <<"any">>, <<"cust", 1, FALSE>>}
+    [] fam = "nst" -> {J("a"), J("b"), <<"any">>, <<"validate", <<"any">>, "1", "F">>, <<"cust", 1, FALSE>>}
     [] fam = "ctx" -> {J("a"), JJ("a", "b"), <<"any">>, <<"cfgjust">>, <<"cfgjustr">>, <<"mw", <<"any">>>>}
 
 RECURSIVE GSz(_, _)
@@ -227,7 +242,8 @@ MCSpec == MCInit /\ [][MCNext]_vars
 ---------------------------------------------------------------------------
 (* Property invariants *)
 
-X == [toks |-> Toks, offs |-> Case.offs, kind |-> Case.kind]
+X == [toks |-> Toks, offs |-> Case.offs, kind |-> Case.kind, lo |-> 0, hi |-> NTok]
+XOf(fr) == [X EXCEPT !.lo = fr.rng[1], !.hi = fr.rng[2]]
 KfClean == \A s \in DOMAIN kf : IsOpen(s) \/ kf[s] = "off"
 OpenOn(s) == s \in DOMAIN kf /\ kf[s] = "on"
 (* the failure events that count under the readings chosen in this behaviour *)
@@ -249,8 +265,8 @@ EmAgree(es, dem) == /\ Len(es) = Len(dem)
 RetRefines ==
   (ret.set /\ ~st.done /\ KfClean /\ ret.fr.role \in {"go", "pratt"}) =>
     LET fr == ret.fr
-        d == IF Op(fr.g) = "pratt" THEN DPratt(fr.g, X, fr.cp.cur, fr.ctx, EnvBodies(fr.env), fr.n)
-             ELSE D(fr.g, X, fr.cp.cur, fr.ctx, EnvBodies(fr.env))
+        d == IF Op(fr.g) = "pratt" THEN DPratt(fr.g, XOf(fr), fr.cp.cur, fr.ctx, EnvBodies(fr.env), fr.n)
+             ELSE D(fr.g, XOf(fr), fr.cp.cur, fr.ctx, EnvBodies(fr.env))
     IN /\ ret.ok = d.ok
        /\ ret.ok => /\ cur = d.end
                     /\ fr.mode = "E" => ret.val = d.val
@@ -259,7 +275,7 @@ RetRefines ==
 
 (* C18: whenever anything can observe it, the inspector has seen exactly  *)
 (* the tokens before the cursor                                           *)
-InspConsistent == ~st.done => insp = cur
+InspConsistent == (~st.done /\ ~IsTree) => insp = cur
 
 CursorInBounds == cur >= 0 /\ cur <= NTok
 
@@ -284,7 +300,7 @@ FurthestFailure ==
    /\ ~HasOp(G, {"not", "recover", "label", "maperr", "nested", "pratt"})) =>
     LET d == DenTop
         e == result.errs[Len(result.errs)]
-    IN /\ 0 <= e.s /\ e.s <= e.e /\ e.e <= TotalLen
+    IN /\ 0 <= e.s /\ e.s <= e.e /\ (~IsTree => e.e <= TotalLen)
        /\ FlOf(d) # {} =>
             LET P == MaxPos(FlOf(d))
                 customs == {ev.err.cust : ev \in {x \in AtMax(FlOf(d)) : x.err.cust # ""}}
@@ -295,7 +311,8 @@ FurthestFailure ==
                          /\ e.exp = UNION {ev.err.exp : ev \in AtMax(FlOf(d))}
                \* `found` is the token at the start of the span (user-supplied errors carry no `found`;
                \* Simple and Cheap cannot tell them apart, so the clause applies when none is involved)
-               /\ (Ety \in {"rich", "simple"} /\ customs = {}) => e.found = OffTok(e.s)
+               \* (token trees: offsets are relative to the group the failure lies in; not decoded here)
+               /\ (Ety \in {"rich", "simple"} /\ customs = {} /\ ~IsTree) => e.found = OffTok(e.s)
 
 (* C07: every span / slice captured in the output is well-formed: start <= end, inside the   *)
 (* input; for &str on character boundaries (an offset of some cursor)                          *)
